@@ -65,7 +65,7 @@ def exact_time_premises(ctx, rep, prefix=""):
     BQ = "chartparse.sync.BPMEvent.ParsedData"
     info = check_from_chart_line(ctx, rb2, BQ)
     if info is not None:
-        check_line_recogniser(ctx, BQ, info, rb2, rb2, rb2, only={"canon", "capture", "groups"})
+        check_line_recogniser(ctx, BQ, info, rb2, rb2, rb2, only={"canon", "capture", "groups", "upper"})
     r9 = rep.rule("index", "governing index = last tempo event at or before the tick (guards + scan, C11)", floor=3)
     T.check_index(r9, r9)
     rrf = rep.rule("resolution-field", "the resolution every tick-to-time conversion and tick distance uses is the integer written on "
